@@ -1438,10 +1438,13 @@ pub fn check_session(cap: &Capture, scn: &DebugScenario, report: &mut Report) ->
     if !stop_compare
         && out.violations.is_empty()
         && scn.transport != Transport::Terminal
-        && dbg.io.unspecified_at().is_none()
+        // (register dumps are matched by their values; a PUTS terminator with two readings or an
+        // unspecified character leaves the rest of this session's output unjudged)
+        && dbg.io.adopted_at.is_none()
+        && dbg.io.puts_ambiguous_at.is_none()
         && !matches!(real.end, End::Spin | End::Fuel | End::KeysExhausted | End::Hang | End::Flood)
         && expected_end.as_ref() == Some(&real.end)
-        && real.stdout != dbg.io.output
+        && dbg.io.output_matches(&real.stdout).is_err()
     {
         let has_eval_output = scn.script.iter().any(|i| matches!(&i.cmd, Cmd::Eval(e) if matches!(e.kind, EvalKind::Word(w) if w >> 12 == 0xF)));
         let has_reset = scn.script.iter().any(|i| matches!(i.cmd, Cmd::Reset));
